@@ -170,7 +170,49 @@ func (r *rw) expr(e ast.Expr) ast.Expr {
 	return e
 }
 
+// extSync: methods of thread-safe objects of packages that are not rewritten
+// (Prometheus vectors). A call to one is a synchronisation operation - the
+// vector takes its own lock - so it is a place where another goroutine can have
+// run since this one prepared the call's arguments. Statements containing such a
+// call get a conditional scheduling point in front (vrt.ExtCall, active only in
+// scenarios that ask for it).
+var extSync = map[string]bool{"WithLabelValues": true, "GetMetricWithLabelValues": true, "With": true, "GetMetricWith": true}
+
+func callsExtSync(n ast.Node) (name string) {
+	ast.Inspect(n, func(m ast.Node) bool {
+		if _, isLit := m.(*ast.FuncLit); isLit {
+			return false
+		}
+		if c, ok := m.(*ast.CallExpr); ok {
+			if sel, ok := c.Fun.(*ast.SelectorExpr); ok && extSync[sel.Sel.Name] {
+				name = sel.Sel.Name
+			}
+		}
+		return name == ""
+	})
+	return
+}
+
 func (r *rw) stmt(s ast.Stmt) ast.Stmt {
+	wrap := ""
+	switch x := s.(type) {
+	case *ast.ExprStmt, *ast.ReturnStmt:
+		wrap = callsExtSync(x)
+	case *ast.AssignStmt:
+		if x.Tok != token.DEFINE {
+			wrap = callsExtSync(x)
+		}
+	}
+	if wrap != "" {
+		return &ast.BlockStmt{List: []ast.Stmt{
+			&ast.ExprStmt{X: r.vrt("ExtCall", &ast.BasicLit{Kind: token.STRING, Value: strconv.Quote(wrap)})},
+			r.stmt1(s),
+		}}
+	}
+	return r.stmt1(s)
+}
+
+func (r *rw) stmt1(s ast.Stmt) ast.Stmt {
 	switch x := s.(type) {
 	case *ast.SendStmt:
 		return &ast.ExprStmt{X: r.vrt("Send", r.expr(x.Chan), r.expr(x.Value))}
